@@ -69,9 +69,9 @@ def corpus_defs(tier):
                    properties=('RejectQueuesNothing', 'EmptyFlushOK'), facets=None, rel='filtered')
     d['frag'] = dict(trace='TraceFrag', mc=[
         fr(4 if q else 5, 'StepsA', 'CtsA'),
-        fr(3 if q else 5, 'StepsB', 'CtsB', start=9000),
-        fr(5 if q else 8, 'StepsC', 'CtsA', start=3000),
-    ] + ([] if q else [fr(6, 'StepsA', 'CtsB', start=7)]),
+        fr(3 if q else 4, 'StepsB', 'CtsB', start=9000),
+        fr(5 if q else 7, 'StepsC', 'CtsA', start=3000),
+    ] + ([] if q else [fr(4, 'StepsA', 'CtsB', start=7)]),
         rand=[dict(gen='frag', n=200 if q else 4000, rel='filtered', facets=None)])
     # --- sink: every write-call index x fault kind (and every byte offset as a short-write cut) ---
     d['sink'] = dict(trace='TraceMuxide', inst_div=100000, mc=[
